@@ -357,6 +357,26 @@ def alias_programs():
             yield make + ["DUP"] + mut + ["POP", "STOP"]
 
 
+# ------------------------------------------------------------------ container opcodes on OBJECTS
+def object_container_programs():
+    """APPEND / APPENDS / ADDITEMS whose target is an object made by a call (a deque, a list or set
+    subclass): the real VM calls .append / .extend / .add on it and keeps it on the stack.  fickling may
+    refuse these; if it accepts them its stack must keep the VM's shape (seeded change C09 r2)."""
+    one, two = ("BININT1", 1), ("BININT1", 2)
+    makers = [
+        [("GLOBAL", ("collections", "deque")), "EMPTY_TUPLE", "REDUCE"],
+        [("GLOBAL", ("mypkg.sub", "Thing")), "EMPTY_TUPLE", "NEWOBJ"],
+        ["MARK", ("INST", ("collections", "deque"))],
+    ]
+    muts = [[one, "APPEND"], ["MARK", one, two, "APPENDS"], ["MARK", "APPENDS"], ["MARK", one, "ADDITEMS"]]
+    tails = [["STOP"], ["TUPLE1", "STOP"], [("BINPUT", 0), "MARK", one, "POP_MARK", "STOP"]]
+    for mk in makers:
+        for mu in muts:
+            for tl in tails:
+                yield mk + mu + tl
+                yield ["EMPTY_LIST"] + mk + mu + ["APPEND"] + tl
+
+
 # ------------------------------------------------------------------ natural values
 class Inst:
     def __init__(self, a=1):
